@@ -219,6 +219,7 @@ func runProperty(eng *Engine, verifDir, prop, tier string, updateLedger, verbose
 
 	// 3. classify
 	violations := 0
+	var otherKnownNames []string
 	discharged := 0
 	var undecided, newFailed, knownLines []string
 	solverCount := map[string]int{}
@@ -257,6 +258,11 @@ func runProperty(eng *Engine, verifDir, prop, tier string, updateLedger, verbose
 		if st == "disagree" {
 			fmt.Printf("ENGINE-FAULT solvers disagree on %s\n", n)
 			return 2
+		}
+		if otherKnown(known, prop, n) {
+			// recorded as a known finding of another property: reported there, not counted here
+			otherKnownNames = append(otherKnownNames, n)
+			continue
 		}
 		if kf := knownFor(n); kf != nil {
 			knownLines = append(knownLines, fmt.Sprintf("KNOWN-FINDING: property=%s obligation=%s witness=%q %s", prop, n, kf.Witness, kf.What))
@@ -362,7 +368,8 @@ func runProperty(eng *Engine, verifDir, prop, tier string, updateLedger, verbose
 	total := len(names)
 	coverage := map[string]interface{}{
 		// obligations behind recorded known findings are reported separately (known_findings), not as claimed obligations
-		"obligations":           total - len(knownLines) - len(undecided),
+		"obligations":           total - len(knownLines) - len(undecided) - len(otherKnownNames),
+		"known_findings_of_other_properties": otherKnownNames,
 		"discharged":            discharged,
 		"checker_cmd":           fmt.Sprintf("/verif/bin/plushvc -repo %s -prop %s -tier %s", eng.repo, prop, tier),
 		"trusted_base":          []string{"golang.org/x/tools v0.29.0 go/ssa", "plushvc VC generator (/verif/engine)", "z3-new 5.1.0", "z3 4.8.12", "cvc5 1.0.3", "/verif/stdlib/*.spec assumed contracts"},
@@ -449,4 +456,13 @@ func writeReplay(eng *Engine, verifDir, prop string, g *oblGroup, dump string) r
 	b, _ := json.MarshalIndent(rec, "", " ")
 	os.WriteFile(path, append(b, '\n'), 0o644)
 	return rr
+}
+
+func otherKnown(known []KnownFinding, prop, name string) bool {
+	for _, k := range known {
+		if k.Kind == "known" && k.Property != prop && k.Obligation == name {
+			return true
+		}
+	}
+	return false
 }
